@@ -47,6 +47,10 @@ CLAIMED["C18"] = ("Bounded symbolic model checking of macro record/replay at the
  "Trusted: gosx. Unit level: the key stack is observed with core.PopKey; whole Readline sessions (C-x ( ... C-x ) C-x e) are not driven by this check.",
  "symbolic execution of the real SSA + SMT (z3) equality of replayed and recorded keys", "DESIGN.md §5 C18")
 
+CLAIMED["C07"] = ("Bounded symbolic model checking of undo/redo through the real Readline loop: symbolic sequences of editing commands (inserts, backspace, kills, yank, movements, undo) typed one key per read, with a ghost list of the buffers shown; undo results must be earlier states, repeated undo must reach the initial content, n undos + n redos must restore the text, an edit after undo must discard the redo branch.",
+ "Trusted: gosx, paint stubs, terminal stub; emacs mode only, history walks are not part of the command alphabet.",
+ "symbolic execution of the real SSA (Readline loop) + SMT (z3) decision over symbolic command sequences, assertions against a ghost model", "DESIGN.md §5 C07")
+
 PENDING = {}
 
 NA = {
